@@ -315,7 +315,7 @@ func genValue(t *rapid.T, kind string) interface{} {
 
 var c20ValueKinds = []string{"stdtx", "stdtx", "stdtx", "stdtx", "account", "account", "validator", "validator", "signinfo", "coins", "int", "dec", "address", "posparams", "posgenesis", "authgenesis", "govgenesis",
 	"supply", "upgrade", "acl", "feemultis", "coin", "deccoins", "multisig", "missedblock", "pubkey"} // (sdk.Uint is no wire or storage type of posmint: observation L5)
-var c20Decoders = []string{"tx", "tx", "account", "validator", "pubkey", "intjson", "decjson", "decstr", "coinsstr", "intamino", "stdtxjson"}
+var c20Decoders = []string{"tx", "tx", "account", "validator", "pubkey", "intjson", "decjson", "decstr", "coinsstr", "intamino", "stdtxjson", "stdtxjson", "accountjson", "validatorjson", "pubkeyjson"}
 
 func genC20(t *rapid.T, tier string) interface{} {
 	simInit()
@@ -399,6 +399,20 @@ func genHostile(t *rapid.T, dec string) []byte {
 		valid = []byte(rapid.SampledFrom([]string{"1upokt", "5abc,3abd", "1upokt,1upokt", "0upokt", "1 upokt", "1UPOKT", "-1upokt", "1.5upokt", ",", "1ab", strings.Repeat("9", 100) + "upokt", "1upokt,", "١upokt"}).Draw(t, "coinss"))
 	case "stdtxjson":
 		valid, _ = simCdc.MarshalJSON(genStdTxV(t))
+	case "accountjson":
+		valid, _ = simCdc.MarshalJSON(genValue(t, "account"))
+	case "validatorjson":
+		valid, _ = simCdc.MarshalJSON(genValidatorV(t, "hvj"))
+	case "pubkeyjson":
+		valid, _ = simCdc.MarshalJSON(genValue(t, "pubkey"))
+	}
+	if strings.HasSuffix(dec, "json") && len(valid) > 0 && valid[0] == '{' && rapid.Bool().Draw(t, "jsonsurgery") {
+		// structural mutation: one node of the document is replaced by a value of another shape (the document
+		// stays well-formed JSON, so it reaches the field decoders instead of dying in the parser)
+		repl := rapid.SampledFrom([]string{`7`, `0`, `-1`, `""`, `"x"`, `"zz"`, `null`, `true`, `[]`, `{}`, `[1]`, `{"type":"x","value":7}`, `"` + strings.Repeat("f", 131) + `"`, `1e999`, `"\u0000"`}).Draw(t, "jsonrepl")
+		if out, ok := jsonSurgery(valid, rapid.IntRange(0, 63).Draw(t, "jsonnode"), repl); ok {
+			return out
+		}
 	}
 	b := append([]byte{}, valid...)
 	if len(b) == 0 {
@@ -415,6 +429,53 @@ func genHostile(t *rapid.T, dec string) []byte {
 		b[0] = byte(rapid.IntRange(0, 255).Draw(t, "first"))
 	}
 	return b
+}
+
+// jsonSurgery replaces the n-th node (object members and array elements, in document order, modulo their number)
+// of a JSON document by raw JSON text.
+func jsonSurgery(doc []byte, n int, repl string) ([]byte, bool) {
+	var root interface{}
+	d := json.NewDecoder(bytes.NewReader(doc))
+	d.UseNumber()
+	if d.Decode(&root) != nil {
+		return nil, false
+	}
+	type slot struct {
+		set func(interface{})
+	}
+	var slots []slot
+	var walk func(v interface{})
+	walk = func(v interface{}) {
+		switch x := v.(type) {
+		case map[string]interface{}:
+			var ks []string
+			for k := range x {
+				ks = append(ks, k)
+			}
+			sort.Strings(ks)
+			for _, k := range ks {
+				k := k
+				slots = append(slots, slot{func(nv interface{}) { x[k] = nv }})
+				walk(x[k])
+			}
+		case []interface{}:
+			for i := range x {
+				i := i
+				slots = append(slots, slot{func(nv interface{}) { x[i] = nv }})
+				walk(x[i])
+			}
+		}
+	}
+	walk(root)
+	if len(slots) == 0 {
+		return nil, false
+	}
+	slots[n%len(slots)].set(json.RawMessage(repl))
+	out, err := json.Marshal(root)
+	if err != nil {
+		return nil, false
+	}
+	return out, true
 }
 
 // ---------------------------------------------------------------------------------------------
@@ -744,6 +805,33 @@ func c20Hostile(it *c20Item) (bool, *Violation) {
 					return
 				}
 				j3, _ := simCdc.MarshalJSON(tx3)
+				stable, detail = canonJSON(j2) == canonJSON(j3), string(j2)+" vs "+string(j3)
+			}
+		case "accountjson", "validatorjson", "pubkeyjson":
+			mk := map[string]func() interface{}{
+				"accountjson":   func() interface{} { return new(authexported.Account) },
+				"validatorjson": func() interface{} { return new(postypes.Validator) },
+				"pubkeyjson":    func() interface{} { return new(crypto.PublicKey) },
+			}[dec]
+			x1 := mk()
+			if err := simCdc.UnmarshalJSON(bz, x1); err == nil {
+				decoded = true
+				j1, e1 := simCdc.MarshalJSON(x1)
+				if e1 != nil {
+					return // a decoded value the encoder refuses is not "a value that re-encodes"
+				}
+				x2 := mk()
+				if e2 := simCdc.UnmarshalJSON(j1, x2); e2 != nil {
+					stable, detail = false, e2.Error()
+					return
+				}
+				j2, _ := simCdc.MarshalJSON(x2)
+				x3 := mk()
+				if e3 := simCdc.UnmarshalJSON(j2, x3); e3 != nil {
+					stable, detail = false, e3.Error()
+					return
+				}
+				j3, _ := simCdc.MarshalJSON(x3)
 				stable, detail = canonJSON(j2) == canonJSON(j3), string(j2)+" vs "+string(j3)
 			}
 		case "account":
